@@ -1,6 +1,9 @@
 //! Contains YAML serde representation for the config.
 
 #[cfg(okane_verif)]
+#[allow(unused_imports)]
+use crate::verif::chrono;
+#[cfg(okane_verif)]
 use crate::verif::std;
 use std::collections::HashMap;
 use std::convert::{TryFrom, TryInto};
